@@ -508,9 +508,9 @@ enum Out {
     Rejected,
 }
 
-fn run_yaml(c: &ACfg, style: u64, rt: &tokio::runtime::Runtime) -> Out {
+fn run_yaml(c: &ACfg, style: u64) -> Out {
     let y = render_yaml(c, style);
-    let loaded = catch(|| rt.block_on(erbium::config::verif_load_config_from_string(&y)));
+    let loaded = catch(|| erbium::config::verif_load_config_from_string(&y));
     let shared = match loaded {
         None => return Out::Panic,
         Some(Err(e)) => {
@@ -599,7 +599,7 @@ fn sanitise_for_yaml(c: &mut ACfg) {
     }
 }
 
-fn case(kind: u64, c: &ACfg, style: u64, rt: &tokio::runtime::Runtime) -> Toks {
+fn case(kind: u64, c: &ACfg, style: u64) -> Toks {
     let mut t = Toks::new();
     t.n(kind);
     put_cfg(&mut t, c);
@@ -609,7 +609,7 @@ fn case(kind: u64, c: &ACfg, style: u64, rt: &tokio::runtime::Runtime) -> Toks {
             None => Out::Panic,
         }
     } else {
-        run_yaml(c, style, rt)
+        run_yaml(c, style)
     };
     match out {
         Out::Bytes(b) => {
@@ -849,7 +849,6 @@ fn main() {
 
 pub fn run(args: &Args, out: &mut dyn Write) -> Stats {
     let mut stats = Stats::default();
-    let rt = tokio::runtime::Builder::new_current_thread().enable_all().build().expect("runtime");
     if let Some(path) = &args.replay {
         for line in std::fs::read_to_string(path).expect("replay file").lines() {
             if line.starts_with('#') || line.trim().is_empty() {
@@ -861,10 +860,10 @@ pub fn run(args: &Args, out: &mut dyn Write) -> Stats {
             match get_cfg(&mut c) {
                 Some(cfg) if kind == 1 || kind == 2 => {
                     // replays of kind 2 try a few renderings of the same configuration
-                    writeln!(out, "{}", case(kind, &cfg, 0, &rt).0).unwrap();
+                    writeln!(out, "{}", case(kind, &cfg, 0).0).unwrap();
                     if kind == 2 {
                         for style in [0x5555_5555u64, 0xffff_ffff, 0x1234_5678] {
-                            writeln!(out, "{}", case(kind, &cfg, style, &rt).0).unwrap();
+                            writeln!(out, "{}", case(kind, &cfg, style).0).unwrap();
                         }
                     }
                 }
@@ -893,7 +892,7 @@ pub fn run(args: &Args, out: &mut dyn Write) -> Stats {
             stats.bump("kind.direct");
         }
         let style = r.next();
-        writeln!(out, "{}", case(kind, &cfg, style, &rt).0).unwrap();
+        writeln!(out, "{}", case(kind, &cfg, style).0).unwrap();
     }
     stats
 }
